@@ -37,17 +37,75 @@ class Undecided(Exception):
 LABEL_RE = re.compile(r'//\s*#([A-Za-z0-9_]+)\s*(?:\[([A-Z0-9, ]*)\])?')
 
 
+# Overlay contracts (unit directive `overlay NAME`): `contracts/<stem>.<fn>+NAME.vc` holds ADDITIONAL clauses of a function
+# for the units that name the overlay; they are merged into the function's base contract (same section name: the lines are
+# appended; in `[sig]` and `[loop ..]` sections they are appended to the clause group - requires / ensures / invariant .. -
+# under which the overlay lists them).  Units without the directive see the base contract only, so a property whose
+# clauses are expected to fail on the current tree (C20) does not disturb the proofs of the properties that share the function.
+OVERLAY = [None]
+
+
 class Contract:
     def __init__(self, path):
         self.path = path
-        self.sections = {}      # name -> list of (lineno, text)
+        self.sections = {}      # name -> list of (lineno, text[, file])
         self.order = []
         self.expect_loops = None
         self.loopnames = {}
         self.opts = {}
+        self._read(path, None)
+        if OVERLAY[0] and path.endswith('.vc'):
+            opath = path[:-3] + '+' + OVERLAY[0] + '.vc'
+            if os.path.exists(opath):
+                self._read(opath, os.path.relpath(opath, VERIF))
+
+    GROUP_KW = ('requires', 'ensures', 'decreases', 'invariant', 'invariant_except_break', 'ensures_on_break')
+
+    def _merge(self, name, lines):
+        """append overlay lines to an existing section"""
+        base = self.sections[name]
+        if not (name == 'sig' or name.startswith('loop ')):
+            base.extend(lines)
+            return
+        cur = None
+        for item in lines:
+            kw = item[1].strip()
+            if kw in self.GROUP_KW:
+                cur = kw
+                continue
+            if cur is None:
+                base.append(item)
+                continue
+            # the end of the base's group `cur`
+            pos = None
+            inside = False
+            for k, b in enumerate(base):
+                bk = (b[1].strip().split() or [''])[0].rstrip(',')
+                if bk in self.GROUP_KW:
+                    if inside:
+                        pos = k
+                        # a label comment just above the next group belongs to that group
+                        while pos > 0 and base[pos - 1][1].strip().startswith('//'):
+                            pos -= 1
+                        break
+                    inside = (bk == cur)
+            if inside and pos is None:
+                pos = len(base)
+            if pos is None:
+                # the base has no such group: requires goes first, anything else last (before decreases)
+                if cur == 'requires':
+                    base[0:0] = [(item[0], '    requires', item[2]), item]
+                else:
+                    dk = next((k for k, b in enumerate(base) if (b[1].strip().split() or [''])[0] == 'decreases'), len(base))
+                    base[dk:dk] = [(item[0], '        ' + cur, item[2]), item]
+            else:
+                base.insert(pos, item)
+
+    def _read(self, path, ofile):
         if not os.path.exists(path):
             return
         cur = None
+        pending = {}
         for ln, line in enumerate(open(path).read().split('\n'), 1):
             m = re.match(r'^\[(.+)\]\s*$', line)
             if m:
@@ -66,12 +124,22 @@ class Contract:
                     self.opts[k.strip()] = v.strip()
                     cur = None
                     continue
+                if ofile is not None and cur in self.sections:
+                    pending.setdefault(cur, [])
+                    continue
                 self.sections[cur] = []
                 self.order.append(cur)
                 continue
             if cur is None:
                 continue
-            self.sections[cur].append((ln, line))
+            if ofile is not None and cur in pending:
+                pending[cur].append((ln, line, ofile))
+            elif ofile is not None:
+                self.sections[cur].append((ln, line, ofile))
+            else:
+                self.sections[cur].append((ln, line))
+        for name, lines in pending.items():
+            self._merge(name, lines)
 
     def get(self, name):
         return self.sections.get(name)
@@ -341,12 +409,13 @@ class FnEmitter:
                 return res
             label = None
             props = []
-            for ln, l in sec:
+            for item in sec:
+                ln, l = item[0], item[1]
                 m = LABEL_RE.search(l)
                 if m and l.strip().startswith('//'):
                     label = m.group(1)
                     props = [p.strip() for p in (m.group(2) or '').split(',') if p.strip()]
-                res.append((l, {'k': 'contract', 'file': rel_c, 'line': ln, 'fn': key,
+                res.append((l, {'k': 'contract', 'file': (item[2] if len(item) > 2 else rel_c), 'line': ln, 'fn': key,
                                 'section': section, 'label': label, 'props': props,
                                 'text': l.strip()}))
             return res
@@ -875,7 +944,7 @@ class FnEmitter:
                             k = sq[4]
                 k += 1
 
-        isolated = not any('loop_isolation(false)' in l for _, l in (con.get('attr') or []))
+        isolated = not any('loop_isolation(false)' in it[1] for it in (con.get('attr') or []))
 
         # R13: `RECV.iter().fold(INIT, |mut ACC, &X| {ACC OP= X; ACC})` -> the loop that Iterator::fold is
         # defined as (core: `let mut accum = init; for x in self { accum = f(accum, x); } accum`), with the
@@ -1366,6 +1435,8 @@ def build(unit, repo_root, diff=False, canary=False, extra_stubs=()):
     directives = [l.strip().split() for l in open(upath).read().split('\n') if l.strip() and not l.strip().startswith('#')]
     proved_here = set((d[1], d[2]) for d in directives if d[0] in ('prove', 'prove?') and len(d) >= 3)
     heap_fns = [x for d in directives if d[0] == 'heap-functions' for x in d[1:]]
+    OVERLAY[0] = next((d[1] for d in directives if d[0] == 'overlay'), None)
+    info['overlay'] = OVERLAY[0]
     info['heap_functions'] = heap_fns
     unit_lines = open(upath).read().split('\n') + ['stub %s %s' % (f, n) for f, n in extra_stubs]
     info['auto_stubbed'] = ['%s::%s' % (f, n) for f, n in extra_stubs]
@@ -1395,7 +1466,7 @@ def build(unit, repo_root, diff=False, canary=False, extra_stubs=()):
             emit_static(repo, out, parts[1], parts[2], counts, info)
         elif cmd == 'macro':
             emit_macro(repo, out, parts[1], parts[2], info)
-        elif cmd == 'heap-functions':
+        elif cmd in ('heap-functions', 'overlay'):
             continue
         elif cmd in ('stub', 'stub?') and (parts[1], parts[2]) in proved_here:
             continue   # proved in this very unit: the body's own contract is used
